@@ -393,7 +393,19 @@ func main() {
 	emit := func(cs *caseSpec, r *result) {
 		out.Emit(cs.Kind, nontrivial(cs, r), coqCase(cs, r), cs, r)
 	}
+	emitLimit := func(ls *limitSpec, r *limitResult) {
+		term := hlib.App("CaseLimit", hlib.Nat(ls.Heights), hlib.Z(int64(r.BurstHeld)), hlib.Z(int64(r.MaxConc)),
+			hlib.Nat(r.Delivered), hlib.Bool(r.Finished))
+		out.Emit(ls.Kind, true, term, ls, r)
+	}
 	if opts.Replay != "" {
+		var probe limitSpec
+		if err := hlib.ReplayInput(opts.Replay, &probe); err == nil && probe.Limit {
+			w := newWorld()
+			r := w.runLimit(&probe)
+			emitLimit(&probe, &r)
+			return
+		}
 		var cs caseSpec
 		if err := hlib.ReplayInput(opts.Replay, &cs); err != nil {
 			panic(err)
@@ -448,6 +460,15 @@ func main() {
 	}
 	for _, cs := range witnesses() {
 		run(cs)
+	}
+	// the per-peer limit (50 for a single peer): 52-54 heights, at least two goroutines sleep
+	for i := 0; i < 2 && healthy; i++ {
+		ls := &limitSpec{Kind: "limit", Heights: 52 + rng.Intn(3), Limit: true}
+		r := w.runLimit(ls)
+		emitLimit(ls, &r)
+		if !r.Finished {
+			healthy = false
+		}
 	}
 	n := 120
 	if opts.Thorough() {
